@@ -355,6 +355,9 @@ func (_this *Context) MarkObject(dataType DataType) {
 	_this.markerIDs = _this.markerIDs[:len(_this.markerIDs)-1]
 
 	newLocalReferenceCount := _this.LocalReferenceCount + 1
+	if newLocalReferenceCount > _this.config.Rules.MaxMarkerCount {
+		panic(fmt.Errorf("too many markers (%d). Max is %d", newLocalReferenceCount, _this.config.Rules.MaxMarkerCount))
+	}
 	if newLocalReferenceCount > _this.config.Rules.MaxLocalReferenceCount {
 		panic(fmt.Errorf("too many marked objects (%d). Max is %d", newLocalReferenceCount, _this.config.Rules.MaxLocalReferenceCount))
 	}
